@@ -61,7 +61,7 @@ NormCli(o, lastNotDisc, preUsed, mt) ==
 StateOf(post, pred) ==
     [srv |-> [tick |-> post.srv.tick, frame |-> post.srv.frame, lastRun |-> pred.srv.lastRun,
               running |-> post.srv.running, wasRunning |-> pred.srv.wasRunning, tickChanged |-> pred.srv.tickChanged,
-              timerAcc |-> pred.srv.timerAcc, now |-> post.srv.now,
+              tickMaybe |-> pred.srv.tickMaybe, timerAcc |-> pred.srv.timerAcc, now |-> post.srv.now,
               world |-> [e \in Ents |-> NormEnt(post.srv.world[e])],
               remEv |-> pred.srv.remEv, remEvOld |-> pred.srv.remEvOld,
               despawnBuf |-> post.srv.despawnBuf,
@@ -122,7 +122,8 @@ Predict(cur, r) ==
          [] r.ev = "Unrelate" -> Plain(P!UnrelateF(cur, a.e), P!UnrelateEnabled(cur, a.e))
          [] r.ev = "SetVis"   -> Plain(P!SetVisF(cur, a.c, a.e, a.v), P!SetVisEnabled(cur, a.c))
          [] r.ev = "SrvFrame" ->
-                LET pre == P!SrvFramePre(cur, a.tick, a.dt)
+                \* a pending reset (see Core.ResolveReset) is resolved by what the real server did
+                LET pre == P!ResolveReset(P!SrvFramePre(cur, a.tick, a.dt), a.tick, r.post.srv.ran)
                     parts == IF P!WillReplicate(pre) THEN [c \in Clients |-> MutParts(r.obs.sent, c)] ELSE <<>>
                     res == P!SrvFramePost(pre, parts, 0)
                     evr == P!SrvFrameEv(res.st, cur, res.ran)
@@ -276,9 +277,11 @@ Step ==
           \E ge1 \in {EvGhostStep(geBase, r, base, obs)} :
             LET ds == IF MonitorsOnly THEN {}
                       ELSE Diffs(pr.st, obs) \cup (IF pr.ok THEN {} ELSE {<<"enabled", r.ev, "-">>}) \cup DeliveryDiff(r, pr)
+                           \* send_replication ran in this frame iff the spec says so
+                           \cup (IF r.ev = "SrvFrame" /\ pr.ran # r.post.srv.ran THEN {<<"ran", "SrvFrame", "-">>} ELSE {})
                 vs == Violations(r, base, obs, g1, geBase, ge1, IF isInit THEN G12Init ELSE g12)
                       \cup (IF r.ev = "Quiesce" /\ Cfg.rel /\ ~ParentsAgree(r.post) THEN {"C01parent"} ELSE {})
-                printable(d) == d[1] \notin {"enabled", "delivered"}
+                printable(d) == d[1] \notin {"enabled", "delivered", "ran"}
             IN /\ \A d \in ds :
                     (nd < MaxPrint) =>
                         PrintT(<<"DIFF", ToJson([run |-> r.run, i |-> r.i, ev |-> r.ev, kind |-> d[1], field |-> d[2], c |-> d[3],
